@@ -156,6 +156,9 @@ pub fn run_campaign(target: &str, runs: u64, seed: u64, max_len: usize, max_secs
         .env("RUSTFLAGS", "--cfg melstf_verif -Aunexpected_cfgs")
         .args(["+nightly", "fuzz", "build", "--fuzz-dir"])
         .arg(&fuzz_dir)
+        // no AddressSanitizer: the oracles are semantic, the code is safe Rust, and ASan's shadow memory and
+        // quarantine turned the targets' large short-lived allocations into out-of-memory stops
+        .args(["-s", "none"])
         .arg(target)
         .output();
     match build {
